@@ -241,7 +241,7 @@ def prove(hyps, goal, timeout_s=10.0):
     return ("unknown", env, be)
 
 
-def feasible(hyps, timeout_s=5.0):
+def feasible(hyps, timeout_s=5.0, use_cvc5=False):
     """True unless the hypotheses are provably unsatisfiable."""
-    r, env, be = check_sat(list(hyps), timeout_s, use_cvc5=False)
+    r, env, be = check_sat(list(hyps), timeout_s, use_cvc5=use_cvc5)
     return r != "unsat", (env if r == "sat" else None)
